@@ -39,13 +39,13 @@ the unchanged tree and non-zero (with a message explaining what went wrong) with
 
 ## How to build things (no network; do not run cmake configure from scratch — too slow)
 - Header-only parts need no build. A standalone program compiles with
-  `g++ -std=c++17 -O1 -I{wt} -I/verif/harness/config demo.cpp <needed .cpp units> -o demo` where the usually needed units are
+  `g++ -std=c++17 -O1 -I{wt} -I{wt}/_cfg demo.cpp <needed .cpp units> -o demo` where the usually needed units are
   `{wt}/kernel/runtime.cpp {wt}/kernel/backend.cpp {wt}/kernel/util/{{dist,dist_file_io,kahan_summation,memory_pool,property_map,statistics,xml_scanner}}.cpp {wt}/kernel/adjacency/{{coloring,cuthill_mckee,graph,permutation}}.cpp`
-  (the only thing you may read under /verif is that one config header directory; it holds `feat_config.hpp`).
+  (`{wt}/_cfg/feat_config.hpp` is the generated configuration header; it is untracked — keep it out of your patch).
   Add `-pthread` if needed.
 - Existing unit tests: every `kernel/**/*-test.cpp` is a test program using `test_system/test_system.hpp`. Build the
   relevant ones directly, e.g.
-  `g++ -std=c++17 -O1 -I{wt} -I/verif/harness/config {wt}/kernel/lafem/sparse_matrix_csr-test.cpp {wt}/test_system/test_system.cpp <units as above> -o t && ./t`
+  `g++ -std=c++17 -O1 -I{wt} -I{wt}/_cfg {wt}/kernel/lafem/sparse_matrix_csr-test.cpp {wt}/test_system/test_system.cpp <units as above> -o t && ./t`
   (look at `test_system/test_system.cpp` / a neighbouring CMakeLists.txt to see what a test needs; tests print PASSED/FAILED
   per test and return non-zero on failure). Run every existing test file that includes or exercises the file(s) you
   changed, before and after your change; all must still pass after.
@@ -59,5 +59,8 @@ the unchanged tree and non-zero (with a message explaining what went wrong) with
 Leave the source change applied in the worktree. Reply with a short summary (≤ 25 lines).
 """
 os.makedirs(os.path.join(wt, "SEED"), exist_ok=True)
+os.makedirs(os.path.join(wt, "_cfg"), exist_ok=True)
+cfg = open("/repo/_build/feat_config.hpp").read().replace("#define FEAT_HAVE_OMP", "// #undef FEAT_HAVE_OMP")
+open(os.path.join(wt, "_cfg", "feat_config.hpp"), "w").write(cfg)
 open(os.path.join(wt, "SEED_TASK.md"), "w").write(task)
 print(wt)
